@@ -138,6 +138,19 @@ impl GenericParamSet {
                 }
                 visit_path(self, i);
             }
+            // The arguments of a type macro (`my_ty!(T)`) are opaque tokens.
+            fn visit_macro(&mut self, i: &'ast syn::Macro) {
+                fn contains(generics: &GenericParamSet, tokens: proc_macro2::TokenStream) -> bool {
+                    tokens.into_iter().any(|t| match t {
+                        proc_macro2::TokenTree::Ident(ident) => generics.contains(&ident),
+                        proc_macro2::TokenTree::Group(g) => contains(generics, g.stream()),
+                        _ => false,
+                    })
+                }
+                if contains(self.generics, i.tokens.clone()) {
+                    self.result = true;
+                }
+            }
         }
         let mut visitor = Visitor {
             generics: self,
